@@ -40,7 +40,10 @@ def _work(item):
     ex = getattr(res, "_ex", None)
     for ob, rec in zip(ex.obligations if ex else [], res.obligations):
         rec = dict(rec)
-        if rec["status"] != "proved":
+        if rec["status"] != "proved" and rec.get("curtailed"):
+            rec["tries"] = [rec["backend"] + ":" + rec["status"], "quick attempts only: two earlier obligations of this "
+                            "function were already unproved after the whole plan and portfolio"]
+        elif rec["status"] != "proved":
             # portfolio: larger budget, then the other installed solvers on the SMT-LIB text
             rec = portfolio(_ENG, ob, rec, timeout_ms, thorough)
         elif thorough:
